@@ -80,6 +80,22 @@ def judge(out, pid, w, tr, source, mine, matcher, kinds, seqs):
                       dict(property=pid, kind='kv-sequence', invariant=inv, backend=ev['backend'], sequence=[dict(e['o'], s=dec(e['o']['s']), k=dec(e['o']['k']), v=dec(e['o']['v'])) for e in by[key][:i + 1]]))
 
 
+def session_switch_sequences(ids=('', 'a', 'ab', 'abc', 'b', '254700', '2547001234', 'bob', 'bobby')):
+    """one handle reused for two sessions, every ordered pair of ids (incl. ids that are prefixes / extensions of each other)"""
+    def O(op, t=0, s='', k='', v='', b=False):
+        return dict(op=op, t=t, s=s, k=k, v=v, b=b)
+    out, n = [], 0
+    for t in (16, 32):
+        for s1 in ids:
+            for s2 in ids:
+                if s1 == s2:
+                    continue
+                n += 1
+                out.append([O('setprefix', t=t), O('setsession', s=s1), O('put', k='k', v='w%da' % n), O('setsession', s=s2), O('get', k='k'), O('put', k='k', v='w%db' % n),
+                            O('get', k='k'), O('setsession', s=s1), O('get', k='k'), O('dump'), O('setsession', s=s2), O('dump')])
+    return out
+
+
 def replay(pid, path, mine):
     case = json.load(open(path))
     d = core.scratch('verif-kvr-')
